@@ -39,7 +39,7 @@ def tokens(pattern):
             toks.append({"k": "close", "c": 0, "lazy": False})
             i += 1
         elif ch.upper() in CODE and ch.isalpha():
-            c = CODE[ch.upper()]
+            c = CODE[ch.upper()] + (16 if ch.islower() else 0)     # lower-case pattern letters are literal (see LetterMatches)
             if i + 1 < len(pattern) and pattern[i + 1] in "*+":
                 lazy = i + 2 < len(pattern) and pattern[i + 2] == "?"
                 if pattern[i + 1] == "+":          # X+ = X X*  (same priority order)
